@@ -153,9 +153,9 @@ Definition p_F3 (a b : step) : bool :=
 
 Definition g_F3 (steps : list step) : bool := exists_pair p_F3 steps.
 
-Definition opt_fields (H : string -> string) (s : step) : list fld :=
+Definition opt_fields (fx : fixes) (H : string -> string) (s : step) : list fld :=
   if enabled (st_inst s) then
-    match key_fields H (st_ho s) (st_vo s) (st_inst s) (st_req s) with Some f => f | None => [] end
+    match key_fields fx H (st_ho s) (st_vo s) (st_inst s) (st_req s) with Some f => f | None => [] end
   else [].
 
 Definition auth_pre (a : auth) : list fld :=
@@ -167,14 +167,14 @@ Definition auth_pre (a : auth) : list fld :=
 
 (** C11-F4: two look-ups whose pre-images (of the key or, for different endpoints, of the
     endpoint hash or of the authentication strategy's hash) may be shifted against each other *)
-Definition p_F4 (H : string -> string) (a b : step) : bool :=
+Definition p_F4 (fx : fixes) (H : string -> string) (a b : step) : bool :=
   both (fun s => enabled (st_inst s)) a b &&
-  (guard_shift (opt_fields H a) (opt_fields H b) ||
+  (guard_shift (opt_fields fx H a) (opt_fields fx H b) ||
    (negb (ep_eqb (eff_ep (st_inst a)) (eff_ep (st_inst b))) &&
-    (guard_shift (ep_fields H (st_ho a) (eff_ep (st_inst a))) (ep_fields H (st_ho b) (eff_ep (st_inst b))) ||
+    (guard_shift (ep_fields fx H (st_ho a) (eff_ep (st_inst a))) (ep_fields fx H (st_ho b) (eff_ep (st_inst b))) ||
      guard_shift (auth_pre (e_auth (eff_ep (st_inst a)))) (auth_pre (e_auth (eff_ep (st_inst b))))))).
 
-Definition g_F4 (H : string -> string) (steps : list step) : bool := exists_pair (p_F4 H) steps.
+Definition g_F4 (fx : fixes) (H : string -> string) (steps : list step) : bool := exists_pair (p_F4 fx H) steps.
 
 Definition forwards (s : step) : bool :=
   match i_kind (st_inst s) with
